@@ -418,7 +418,10 @@ def _distance_c_with_params(t):
 
 
 def _distance_c_with_params_ndim(t):
-    return dtw_cc.distance_ndim(t[0], t[1], **t[2])
+    # The C code reads the buffers with unit stride
+    s1 = util_numpy.verify_np_array(t[0])
+    s2 = util_numpy.verify_np_array(t[1])
+    return dtw_cc.distance_ndim(s1, s2, **t[2])
 
 
 def warping_paths(s1, s2, psi_neg=True, keep_int_repr=False, **kwargs):
